@@ -65,6 +65,10 @@ CHECKS = {
          "Leg A decides chunk-independence by induction: for every reachable abstract state of each machine (single and multi-document) and every chunk of length 2..L over one representative per byte class (recomputed from the current tables), feeding the chunk at once and byte by byte must reach the same concrete state and the same final outcome. Leg B runs every input of the oj.Parser product search through all front-ends (whole and byte-wise, callback and channel) and requires equal trees or an error everywhere. Leg C splits long tokens at every offset and across the 4096-byte refill; leg D compares sen.Parse / ParseReader / Tokenize on every short SEN text.",
          "Trusted: abstract key and snapshot masking (scratch fields), byte-class partition, nesting and chunk-length bounds. SEN-only syntax is a known broken area (wildcard findings); SEN on strict JSON input and the SEN token list of leg C remain sharp.",
          "DESIGN.md §2.2, §3 C03", "bytemc"),
+ "C05": (EX, "bounded-exhaustive enumeration of path expressions x documents against an independent reference evaluator (pathref), with earliest-fragment localisation",
+         "Every sequence of <=2 (quick) / <=3 (thorough) fragments over an alphabet that puts every index / slice bound in every sign and magnitude relation to the array lengths of the corpus (12 indexes, 392 start x end x step slices, unions, wildcard, descent, 5 filters decided by the scriptref reference) is evaluated by Expr.Get on every document of the corpus and compared with pathref (sequence where order is defined, multiset otherwise); position independence Get(x.f.c) = union of Get(c) over Get(x.f) is checked on the implementation itself.",
+         "Trusted: pathref + scriptref; open readings enumerated as pathref.Variants; trailing bare descent only no-panic/determinism; map orders repeated.",
+         "DESIGN.md §3 C05", "core"),
  "C06": (MC, "explicit-state BFS over all six byte machines (256 bytes per state, reader faults injected at every chunk boundary) + bounded-exhaustive token-sequence / plan / tree enumeration for the recursive parsers",
          "Leg A visits every reachable abstract state of each of the six byte state machines (single- and multi-document) up to the nesting bound and executes all 256 byte values, end of input and one injected reader fault per chunk boundary through the reader and []byte entry points, under recover. Legs B-D enumerate every token sequence up to the length bound into the JSONPath/script parsers, every asm function x arity x argument-kind vector, and every small tree into Unmarshal/Recompose for 26 target types. A panic anywhere is a violation with the input as witness; hangs are caught by the worker watchdog.",
          "Trusted: abstract state key (merged states behave alike for control flow), the token / argument / target alphabets; DESIGN.md §2.5 reading of 'runtime fault' (masked 'runtime error:' error results are counted, not violations).",
